@@ -1,10 +1,11 @@
 (* Runner for the extracted checkpoint model (C17).
    Input (argv[1]): a case file produced by props/C17.py
 
-     table <name>
-     ref <path> <gridlen>        one line per complete reference checkpoint, in order (index = checkpoint number of
-     ...                         the process the table belongs to; index 0 = its initial checkpoint); gridlen = length
-     endtable                    of the grid section as reported by the real reader
+     table <name> <base>
+     ref <path> <gridlen>        one line per complete reference checkpoint, in order; the first <base> entries are
+     ...                         checkpoints written by earlier processes (known complete contents), entry <base> is the
+     endtable                    initial checkpoint of the process, then its checkpoints 1, 2, ...; gridlen = length of
+                                 the grid section as reported by the real reader
      case <id> <table>
      start <cur|-> <old|->       the two files when the process started ('-' = absent)
      ops <tok> ...               observed write-side operations of the process up to the kill:
@@ -54,7 +55,7 @@ let class_str = function
   | C.CTorn k -> Printf.sprintf "torn:%d" (int_of_nat k)
   | C.COther -> "other"
 
-type table = { names : string array; contents : string array; gridlens : int array }
+type table = { names : string array; contents : string array; gridlens : int array; base : int }
 
 let starts_with (s : string) (p : string) =
   String.length s >= String.length p && String.sub s 0 (String.length p) = p
@@ -131,9 +132,11 @@ let do_case (id : string) (t : table) (start : string * string) (ops : string li
   let recovered_main = (src0 = C.FromCur) in
   let obs = List.map parse_op ops in
   let tbl = Array.to_list (Array.map chars t.contents) in
+  let rec drop k l = if k <= 0 then l else (match l with [] -> [] | _ :: r -> drop (k - 1) r) in
+  let own = drop t.base tbl in
   let results = List.map (fun (b2o, skip) ->
       let first_initial = not (skip && recovered_main) in
-      let cs = if first_initial then tbl else (match tbl with _ :: r -> r | [] -> []) in
+      let cs = if first_initial then own else (match own with _ :: r -> r | [] -> []) in
       (* the first stream of the table is the initial checkpoint; when it is skipped the run starts with a checkpoint *)
       match C.follow b2o first_initial f0 cs obs C.O with
       | C.Deviates k -> ((b2o, skip), None, int_of_nat k)
@@ -154,12 +157,13 @@ let do_case (id : string) (t : table) (start : string * string) (ops : string li
 let () =
   let lines = read_lines Sys.argv.(1) in
   let tables : (string, table) Hashtbl.t = Hashtbl.create 7 in
-  let cur_table = ref None and refs = ref [] in
+  let cur_table = ref None and refs = ref [] and cur_base = ref 0 in
   let cid = ref "" and ctab = ref "" and cstart = ref ("-", "-") and cops = ref [] and cafter = ref ("-", "-") in
   List.iter (fun line ->
       match split_ws line with
       | [] -> ()
-      | "table" :: name :: _ -> cur_table := Some name; refs := []
+      | "table" :: name :: rest -> cur_table := Some name; refs := [];
+        cur_base := (match rest with b :: _ -> int_of_string b | [] -> 0)
       | "ref" :: path :: gl :: _ -> refs := (path, int_of_string gl) :: !refs
       | "endtable" :: _ ->
         (match !cur_table with
@@ -168,7 +172,7 @@ let () =
            let l = Array.of_list (List.rev !refs) in
            let t = { names = Array.map fst l;
                      contents = Array.map (fun (p, _) -> match read_file p with Some s -> s | None -> "") l;
-                     gridlens = Array.map snd l } in
+                     gridlens = Array.map snd l; base = !cur_base } in
            Hashtbl.replace tables name t;
            do_table name t;
            cur_table := None)
